@@ -405,6 +405,17 @@ fn fixed_numbers_build() -> Vec<String> {
         v.push(format!("7.{}", "0".repeat(z + 1)));
         v.push(format!("12.{}3", "0".repeat(z)));
     }
+    // mantissas longer than any digit buffer (769, 800, 900, 1100 bytes) brought back into range by the
+    // exponent: a long integer part with a large negative exponent, a long run of zeros after the point
+    // with a large positive one
+    for n in [767usize, 768, 769, 800, 900, 1100] {
+        let d: String = (0..n).map(|i| char::from(b'1' + (i % 9) as u8)).collect();
+        v.push(format!("{d}e-{}", n - 20));
+        v.push(format!("-{d}.5e-{}", n - 3));
+        v.push(format!("0.{}123e{}", "0".repeat(n), n + 3));
+        v.push(format!("{}.{}e-{}", &d[..n / 2], &d[n / 2..], n / 2 - 1));
+        v.push(format!("1{}e-{}", "0".repeat(n), n));
+    }
     // 1..40 fraction digits, all nines and a ramp
     for n in 1..=40 {
         v.push(format!("0.{}", "9".repeat(n)));
@@ -796,6 +807,28 @@ pub fn generate_c17(args: &Args, out: &mut Out) {
         let w = obj(vec![("n", v.clone()), ("l", Value::Array(vec![v.clone(), Value::Null]))]);
         for op in ["ser", "de", "txt"] {
             out.case(|| case_v(op, &w));
+        }
+    }
+    // arrays and objects beyond the sizes at which a serializer or visitor might switch to a bulk path
+    // (a length hint capped at 1 MiB / size_of::<Value>() = 11915 elements, 4096 announced entries ..)
+    let mut huge: Vec<Value> = vec![];
+    for n in [4095usize, 4096, 4097, 11915, 11916, 12000, 15000] {
+        huge.push(Value::Array((0..n).map(|i| num(&(i % 10).to_string())).collect()));
+    }
+    huge.push(Value::Array(vec![Value::Array((0..12000).map(|i| num(&(i % 7).to_string())).collect()), Value::Null]));
+    for n in [4094usize, 4095, 4096, 5000] {
+        // distinct names, then one or several repeats of early names
+        let mut es: Vec<Entry> = (0..n).map(|i| Entry::new(format!("m{i}").as_str().into(), num(&(i % 10).to_string()))).collect();
+        huge.push(Value::Object(Object::from_vec(es.clone())));
+        es.push(Entry::new("m7".into(), Value::Null));
+        huge.push(Value::Object(Object::from_vec(es.clone())));
+        es.insert(100, Entry::new("m4000".into(), Value::Boolean(true)));
+        es.push(Entry::new("m0".into(), Value::Boolean(false)));
+        huge.push(Value::Object(Object::from_vec(es)));
+    }
+    for v in &huge {
+        for op in ["ser", "de"] {
+            out.case(|| case_v(op, v));
         }
     }
     let wide: Vec<Value> = wide_values(&mut r, true).into_iter().chain(wide_values(&mut r, false)).collect();
